@@ -80,6 +80,7 @@ type Hist struct {
 	FinalizeInWrite      int // ... while a syncer was parked in the state write
 	ReleaseInSync        int
 	InflightAtShutdown   int
+	FinalSyncFaults      int
 	RotationInStateWrite int
 }
 
@@ -605,6 +606,44 @@ func (h *Hist) Actions() map[string]func(*rapid.T) {
 				}
 				w.St.Media.Dir.InjectFailure(kind, w.St.Media.Dir.OpCount(kind), fmt.Errorf("injected %s failure", kind))
 				w.logf("fault: next directory %s fails", kind)
+			}
+		}
+		if h.Opt.Shutdown && h.Opt.Faults {
+			// Graceful shutdown whose FINAL data sync fails (once or in a
+			// burst), with an upload acknowledged while the first of the
+			// two shutdown syncs is in progress: only the final sync covers
+			// that upload, so it must be retried until it succeeds before
+			// the state file is written and shutdown completes.
+			a["finalSyncFault"] = func(t *rapid.T) {
+				sy := w.Syn()
+				if sy.Cancelled || sy.ShutdownDone || w.Closed || rapid.IntRange(0, 2).Draw(t, "really") != 0 {
+					fallback()
+					return
+				}
+				burst := rapid.IntRange(1, 3).Draw(t, "burst")
+				c.Add("finalSyncFault", burst)
+				h.InflightAtShutdown = len(w.Inflight())
+				w.Shutdown()
+				if sy.S == nil && !sy.ShutdownDone {
+					w.StartS()
+				}
+				for i := 0; i < 12 && sy.S != nil && w.CanStepS() && !(sy.S.Parked && sy.S.At == "datasync"); i++ {
+					w.StepS(0)
+				}
+				if sy.S == nil || !sy.S.Parked || sy.S.At != "datasync" || w.Closed {
+					return
+				}
+				// S is inside the first shutdown sync.
+				before := h.ackedCount()
+				u := h.NewUpload()
+				w.FinishPut(u)
+				h.noteFinalize(before)
+				for j := 0; j < burst; j++ {
+					w.St.DataSyncFail[w.St.DataSyncs+1+j] = status.Error(codes.Internal, "injected sync failure")
+				}
+				h.FaultsInjected++
+				h.FinalSyncFaults++
+				w.logf("fault: the final data sync fails %d time(s)", burst)
 			}
 		}
 		if h.Opt.Shutdown {
